@@ -286,10 +286,30 @@ def _run_cell(prop, cfg, timeout_s, tier, replay=None):
     try:
         with contextlib.redirect_stdout(sink):
             mod.run_cell(cfg, cx)
+        if replay is not None and str(replay[0]).startswith("raises:") and cx.replay_outcome is None:
+            cx.replay_outcome = (False, "the real code did not raise")
     except interp.Unsupported as e:
         err = {"kind": "unsupported", "msg": str(e), "tb": traceback.format_exc()[-3000:]}
     except Exception as e:  # noqa: BLE001
-        err = {"kind": "exception", "msg": repr(e), "tb": traceback.format_exc()[-3000:]}
+        # The real code raised on an in-domain configuration: a violation when it does so on concrete
+        # data outside any trace (RealCodeRaised = re-confirmed eagerly; otherwise raised eagerly already).
+        where = None
+        if isinstance(e, interp.RealCodeRaised):
+            where, etype, emsg = e.where, e.exc_type, str(e)
+        elif not getattr(e, "_seen_while_tracing", False) and interp.real_code_frame(e) is not None:
+            where, etype, emsg = interp.real_code_frame(e), type(e).__name__, f"{type(e).__name__}: {e}"
+        if where is not None:
+            name = f"raises:{etype}"
+            ckey = ":".join(f"{a}={cfg[a]}" for a in sorted(cfg)) if isinstance(cfg, dict) else str(cfg)
+            cx.records.append({"name": name, "structural": True, "status": "sat", "reproduced": True, "cfg": cfg,
+                               "key": f"{name}:{where.split(' in ')[-1]}:{ckey}",
+                               "detail": f"the real code raised on an in-domain configuration, also when called "
+                                         f"eagerly on concrete data: {emsg[:300]} at {where}",
+                               "replay_detail": f"real code raises {emsg[:300]} at {where}"})
+            if replay is not None and replay[0] == name:
+                cx.replay_outcome = (True, f"real code raises {emsg[:200]} at {where}")
+        else:
+            err = {"kind": "exception", "msg": repr(e), "tb": traceback.format_exc()[-3000:]}
     return {
         "cfg": cfg, "records": cx.records, "samples": cx.samples, "error": err,
         "nontrivial": sorted(cx.nontrivial_hashes), "validated": cx.validated, "notes": cx.notes,
